@@ -50,7 +50,7 @@ def worker(unit, emit):
     if not corp:
         emit.count('modules_without_corpus')
         corp = ['0']
-    bases = lib.pick(corp, p['bases'], rnd)
+    bases = lib.pick_bases(name, mod, corp, p['bases'], rnd)
     emit.count('modules')
     emit.count('bases', len(bases))
 
